@@ -405,7 +405,24 @@ func vfC19Mk(x *vfExec, sc *vfGWScenario) vfInstance {
 
 func init() {
 	vfRegister("C19", &vfCheck{
-		run:    func(r *vfRun) { vfRunGWScenarios(r, vfC19Scenarios(r.thorough), vfC19Mk) },
-		replay: func(r *vfRun, raw json.RawMessage) { vfReplayGWScenario(r, raw, vfC19Mk) },
+		run: func(r *vfRun) {
+			if _, ok := r.nextCase(); ok {
+				vfExplore(r, vfBatchCfg(r.thorough))
+			}
+			vfRunGWScenarios(r, vfC19Scenarios(r.thorough), vfC19Mk)
+		},
+		replay: func(r *vfRun, raw json.RawMessage) {
+			var c struct {
+				Scenario struct {
+					Part string `json:"part"`
+				} `json:"scenario"`
+			}
+			json.Unmarshal(raw, &c)
+			if c.Scenario.Part == "batch" {
+				vfReplayCase(r, vfBatchCfg(true), raw)
+				return
+			}
+			vfReplayGWScenario(r, raw, vfC19Mk)
+		},
 	})
 }
